@@ -480,6 +480,39 @@ def field_reads(body, field, roots=None):
     return out
 
 
+def _ref_roots(body):
+    rr = getattr(body, "_ref_roots", None)
+    if rr is None:
+        # references to *whole* locals only (`&mut x`, re-borrows `&mut *r`); a `&mut self.field` says nothing about `self`
+        rr = {}
+        changed = True
+        while changed:
+            changed = False
+            for b in body.blocks:
+                for st in b["stmts"]:
+                    if len(st["d"]) != 1:
+                        continue
+                    rv = st["rv"]
+                    add = set()
+                    if rv["k"] in ("ref", "rawptr"):
+                        p = rv["p"]
+                        if len(p) == 1:
+                            add.add(p[0])
+                        elif all(e == "*" for e in p[1:]) and p[0] in rr:
+                            add |= rr[p[0]]
+                    elif rv["k"] == "use" and rv["a"][0] in ("cp", "mv") and len(rv["a"][1]) == 1 and rv["a"][1][0] in rr:
+                        add |= rr[rv["a"][1][0]]
+                    cur = rr.get(st["d"][0], set())
+                    if not add <= cur:
+                        rr[st["d"][0]] = cur | add
+                        changed = True
+        try:
+            body._ref_roots = rr
+        except AttributeError:
+            pass
+    return rr
+
+
 def backward_calls(body, local):
     """Backward slice from `local` through every assignment and every call (args → dest); returns
     (locals, list of call terminators crossed)."""
@@ -493,6 +526,12 @@ def backward_calls(body, local):
         t = b["term"]
         if t["k"] == "call" and len(t["d"]) >= 1:
             defs.setdefault(t["d"][0], []).append(("c", t))
+            # a call handed `&mut x` may write x from its other arguments (`buf.extend(y)`, `y.hash(&mut hasher)`)
+            for a in t["args"]:
+                l = op_local(a)
+                if l is not None and "&mut" in body.locals.get(str(l), ""):
+                    for r in _ref_roots(body).get(l, ()):
+                        defs.setdefault(r, []).append(("c", t))
     seen = {local}
     todo = [local]
     calls = []
@@ -502,7 +541,8 @@ def backward_calls(body, local):
             if k == "s":
                 srcs = [op_local(o) for o in rv_operands(d)]
             else:
-                calls.append(d)
+                if d not in calls:
+                    calls.append(d)
                 srcs = [op_local(a) for a in d["args"]]
             for s in srcs:
                 if s is not None and s not in seen:
